@@ -33,7 +33,24 @@ CHECKS = {
         "note": "Decides the control/data-flow shape that makes the statement true for every delivery pattern; does not compute hash values. Entropy quality is outside the property.",
         "technique": "null-check contradiction rule + finite-class abstract execution over the CFG + must-pass-through dominance rules",
     },
+    "C18": {
+        "text": "Finite-class abstract execution of tinyjambu_trng_generate in four build variants (getrandom, getentropy, raw SYS_getrandom, /dev/urandom; the latter three built by "
+                "shadowing config.h): the OS call's return value and errno are partitioned into {<0,>=0 / short / full} x {EINTR, EAGAIN, other}; from the call the CFG is followed per class. "
+                "Transient classes lead back to the same call with loop-invariant arguments and no effect; permanent classes return 0 after memset(out,0,32) without a back edge; "
+                "success returns 1 with the buffer untouched; every path from a successful open() passes close(fd). Any finite fault sequence is a word over these classes, so the per-class "
+                "obligations cover all sequences. C17's status rules are re-run on every variant for the 'not seeded but usable' clause.",
+        "note": "Assumes the kernel contract (no short getrandom for 32 bytes). Windows/Arduino/ESP/STM32 TRNG files need vendor headers absent here: not covered.",
+        "technique": "finite-class abstract execution (D-FIN) over the CFG of each configuration variant",
+    },
+    "C16": {
+        "text": "Premises of a stated inductive invariant (emitted bytes since last request <= 32*(counter-1); emission only when counter <= limit; limit in [1,32768]) discharged over ALL "
+                "writes of the two budget fields in the linked module (census of stores, mem intrinsics, wipes and callee outputs in every function that takes the PRNG state) and over every "
+                "emission site of generate: per-iteration guard loaded from the state inside the loop, reseed on the exceeding edge, <= 32 bytes and one counter increment per emission; "
+                "interval image of the limit clamp over the partition of its parameter plus exact rounding at boundary representatives.",
+        "note": "The induction itself is the argument in DESIGN.md; the checker discharges its premises. 2^32 counter wrap is assumed away.",
+        "technique": "whole-module write census + dominance/must-pass rules + interval abstract interpretation of the clamp",
+    },
 }
 
 _NB = "not built yet in this session (design exists in DESIGN.md; claimed only once its check fires on broken variants and is silent on the unchanged tree)"
-NOT_APPLICABLE = {p: _NB for p in ["C01", "C02", "C03", "C04", "C05", "C06", "C07", "C08", "C09", "C10", "C11", "C12", "C13", "C14", "C15", "C16", "C18"]}
+NOT_APPLICABLE = {p: _NB for p in ["C01", "C02", "C03", "C04", "C05", "C06", "C07", "C08", "C09", "C10", "C11", "C12", "C13", "C14", "C15", ]}
